@@ -677,3 +677,34 @@ def the_limits_pair_applies_whenever_it_exists(ctx):
                     hits.append(c)
     ctx.check(not hits, f'{cl.qualname}:the pair is selected by its own presence', hits[0] if hits else cl.node, 'no comparison of the set of limit attributes with an exact display',
               f'`{src(hits[0]) if hits else ""}`: the limits pair is only used when it is the ONLY limit attribute - with an additional <p>_min / <p>_max the pair is ignored', cl)
+
+
+@rule('C18.R11', min_instances=1)
+def generated_member_functions_are_installed_one_by_one(ctx):
+    """StructParam.__set_name__ installs read_<member> / write_<member> generated from read_<struct> / write_<struct> unless the
+    programmer wrote that function: the `hasattr(owner, <name>)` test that guards a `setattr(owner, <name>, ...)` asks for the
+    SAME name.  One test on the read name guarding the installation of both leaves a member with a hand-written reader without
+    its generated writer - a write to the member is cached and announced but never reaches write_<struct>: member and struct
+    disagree"""
+    m = ctx.m
+    f = m.method('frappy.extparams.StructParam', '__set_name__', inherited=False)
+    ctx.analysed(f)
+    n = 0
+    for c in [x for x in calls_in(f.node) if isinstance(x.func, ast.Name) and x.func.id == 'setattr' and len(x.args) == 3]:
+        guard = None
+        for a in ancestors(c):
+            if isinstance(a, ast.If):
+                hs = [h for h in ast.walk(a.test) if isinstance(h, ast.Call) and isinstance(h.func, ast.Name) and h.func.id == 'hasattr' and len(h.args) == 2
+                      and src(h.args[0]) == src(c.args[0])]
+                if hs:
+                    guard = hs[0]
+                    break
+        if guard is None:
+            continue
+        n += 1
+        ctx.check(src(guard.args[1]) == src(c.args[1]), f'{f.qualname}:the test guarding an installation asks for the installed name', c,
+                  f'`{src(guard)}` guards `{src(c)}`',
+                  f'`{src(c)}` is guarded by `{src(guard)}` - another name: whether `{src(c.args[1])}` is generated depends on whether `{src(guard.args[1])}` was written by the '
+                  'programmer', f)
+    if not n:
+        ctx.undecided(f'{f.qualname}:the test guarding an installation asks for the installed name', f.node, 'no setattr(owner, ...) under a hasattr(owner, ...) test found', f)
